@@ -547,10 +547,15 @@ func vfRunCoA(f []string) string {
 	}
 	defer ssock.Close()
 	sentinelKey := clients[0].key
-	sreq := []byte{40, 1, 0, 31}
-	sattr := append([]byte{44, 11}, []byte("~sentinel")...)
-	sreq = append(sreq, vfMD5(sreq, vfZero16, sattr, clients[0].secret)...)
-	sreq = append(sreq, sattr...)
+	mkSentinel := func() []byte { // carries a current Event-Timestamp: valid whether or not the attribute is required
+		sreq := []byte{40, 1, 0, 37}
+		sattr := append([]byte{44, 11}, []byte("~sentinel")...)
+		ts := make([]byte, 4)
+		binary.BigEndian.PutUint32(ts, uint32(time.Now().Unix()))
+		sattr = append(append(sattr, 55, 6), ts...)
+		sreq = append(sreq, vfMD5(sreq, vfZero16, sattr, clients[0].secret)...)
+		return append(sreq, sattr...)
+	}
 
 	n, _ := strconv.Atoi(f[5])
 	p := 6
@@ -583,7 +588,7 @@ func vfRunCoA(f []string) string {
 			// "~sentinel" from the first configured client follows the test datagram through the single
 			// read loop and the single worker; its ACK and its terminate event mark the point where the
 			// listener is done with the test datagram.
-			ssock.WriteToUDP(sreq, dst)
+			ssock.WriteToUDP(mkSentinel(), dst)
 			ssock.SetReadDeadline(time.Now().Add(20 * time.Second))
 			if _, _, err := ssock.ReadFromUDP(buf); err != nil {
 				return strings.Join(out, " ; ") + " HANG-sentinel"
